@@ -21,4 +21,16 @@ def gen(rng, tier):
         rest = [l for l in lines if l not in set(fail)] if len(lines) < 50000 else lines
         r.shuffle(fail); r.shuffle(rest)
         reqs += fail[:per] + rest[:per]
+        # boundary families that must not depend on the sample: sizes and values where a fast path, a chunked reader or
+        # a size estimate changes behaviour (a panic on valid input there is exactly what this property forbids)
+        for fn in {"c06": ["capacity_boundary_reqs"], "c05": ["tiny_modulus_reqs", "zero_residue_reqs", "nilpotent_reqs"],
+                   "c01": ["complement_reqs"], "c09": ["internal_iteration_reqs"]}.get(name, []):
+            f = getattr(mod, fn, None)
+            if f is not None:
+                try:
+                    extra = f(random.Random(rng.randrange(1 << 30)), "quick")
+                    have = set(reqs)
+                    reqs += [l for l in extra if l not in have]
+                except Exception:  # noqa: BLE001
+                    pass
     return reqs
